@@ -2,7 +2,7 @@
 from __future__ import annotations
 
 from .harness import Explorer
-from .rules import part, wrappers, pent, sysz, mcsops, cnf, enum, cinf
+from .rules import part, wrappers, pent, sysz, mcsops, cnf, enum, cinf, preocf
 
 
 def _class_of(table, key):
@@ -300,6 +300,18 @@ def C05(rep, prog, tier):
     enum.loop(rep, ex)
 
 
+def C18(rep, prog, tier):
+    rep.explanation = ("C18: RANK.min (accumulator update table, scope of the satisfaction test), ACCEPT.decision, MARG.bits, "
+                       "COND.filter, TPO.order, WORLD.literals on the ranking-function operations")
+    ex = Explorer(prog, rep)
+    preocf.world_literals(rep, ex)
+    preocf.rank_min(rep, ex)
+    preocf.accept_decision(rep, ex)
+    preocf.marg_bits(rep, ex)
+    preocf.cond_filter(rep, ex)
+    preocf.tpo_order(rep, ex)
+
+
 def C06(rep, prog, tier):
     rep.explanation = ("C06: tolerance-partition obligations PART.* on consistency/consistency_indices (scope of every "
                        "satisfiability test, split, balance, terminal decisions, advance, siblings); diagnostics flags; refusal")
@@ -311,4 +323,4 @@ def C06(rep, prog, tier):
     wrappers.shortcut_dominance(rep, ex)
 
 
-CHECKS = {"C01": C01, "C02": C02, "C03": C03, "C04": C04, "C05": C05, "C06": C06, "C07": C07, "C09": C09, "C11": C11, "C12": C12, "C13": C13, "C14": C14, "C15": C15}
+CHECKS = {"C01": C01, "C02": C02, "C03": C03, "C04": C04, "C05": C05, "C06": C06, "C07": C07, "C09": C09, "C11": C11, "C12": C12, "C13": C13, "C14": C14, "C18": C18, "C15": C15}
